@@ -217,3 +217,81 @@ def random_hrg(rng):
     spec = random_spec(rng, recursive=rng.random() < 0.6)
     b = build_hrg(spec, ids=rng.choice(["explicit", "implicit", "mixed"]), rng=rng)
     return b.hrg, spec_jsonable(spec)
+
+# ----------------------------------------------------------------------------
+# presentations (C12): the same grammar written down differently
+
+def _perm(rng, n):
+    p = list(range(n)); rng.shuffle(p); return p
+
+def _index_nested(w, idx):
+    for i in idx: w = w[i]
+    return w
+
+def present(spec, rng):
+    """Returns (spec2, names, back): spec2 is `spec` with rules, nodes, edges reordered, label
+    indices permuted (=> different insertion order of the label tables), domain values permuted
+    together with the factor axes; names = random label names; back(out2) maps observations
+    {label index in spec2: flat row-major list} to the canonical spec's indexing."""
+    n_nl, n_el = len(spec["nlabels"]), len(spec["elabels"])
+    pnl = _perm(rng, n_nl)          # canonical nl -> new nl index
+    pel = _perm(rng, n_el)
+    # keep the start symbol's index free to move as well
+    rho = [_perm(rng, s) for s in spec["nlabels"]]   # per canonical node label: canonical value -> new value
+    inv_nl = [0] * n_nl
+    for a, b in enumerate(pnl): inv_nl[b] = a
+    inv_el = [0] * n_el
+    for a, b in enumerate(pel): inv_el[b] = a
+    nlabels2 = [spec["nlabels"][inv_nl[j]] for j in range(n_nl)]
+    elabels2 = [dict(term=spec["elabels"][inv_el[j]]["term"], type=[pnl[nl] for nl in spec["elabels"][inv_el[j]]["type"]]) for j in range(n_el)]
+    rules2 = []
+    for r in spec["rules"]:
+        sig = _perm(rng, len(r["nodes"]))      # old node position -> new position
+        nodes2 = [None] * len(sig)
+        for old, new in enumerate(sig): nodes2[new] = pnl[r["nodes"][old]]
+        edges2 = [(pel[el], [sig[i] for i in att]) for el, att in r["edges"]]
+        rng.shuffle(edges2)
+        rules2.append(dict(lhs=pel[r["lhs"]], nodes=nodes2, edges=edges2, ext=[sig[i] for i in r["ext"]]))
+    rng.shuffle(rules2)
+    weights2 = {}
+    for el, w in spec["weights"].items():
+        typ = spec["elabels"][el]["type"]
+        shape = [spec["nlabels"][nl] for nl in typ]
+        inv_rho = []
+        for nl in typ:
+            inv = [0] * len(rho[nl])
+            for a, b in enumerate(rho[nl]): inv[b] = a
+            inv_rho.append(inv)
+        def build(prefix, d):
+            if d == len(shape):
+                return _index_nested(w, [inv_rho[k][prefix[k]] for k in range(len(shape))])
+            return [build(prefix + [i], d + 1) for i in range(shape[d])]
+        weights2[pel[el]] = build([], 0)
+    spec2 = dict(nlabels=nlabels2, elabels=elabels2, start=pel[spec["start"]], rules=rules2, weights=weights2,
+                 features=spec["features"], recursive=spec.get("recursive", False))
+    alphabet = "abcdefghijklmnopqrstuvwxyzABCDEFGH"
+    used = set(); names = {}
+    for kind, n in (("nl", n_nl), ("el", n_el)):
+        for j in range(n):
+            while True:
+                s = "".join(rng.choice(alphabet) for _ in range(rng.randint(1, 6)))
+                if s not in used: break
+            used.add(s); names[(kind, j)] = s
+    import itertools
+    def back(out2):
+        out = {}
+        for el in range(n_el):
+            if spec["elabels"][el]["term"]: continue
+            if pel[el] not in out2: continue
+            typ = spec["elabels"][el]["type"]
+            shape = [spec["nlabels"][nl] for nl in typ]
+            flat2 = out2[pel[el]]
+            vals = []
+            for xi in itertools.product(*[range(s) for s in shape]):
+                xi2 = [rho[nl][v] for nl, v in zip(typ, xi)]
+                pos = 0
+                for s, v in zip(shape, xi2): pos = pos * s + v
+                vals.append(flat2[pos])
+            out[el] = vals
+        return out
+    return spec2, names, back
